@@ -23,8 +23,11 @@ OTP = ["nitrogql_printer::operation_type_printer", "nitrogql_printer::ts_types",
 SCOPES = {
     "C01": (OTP, "the Result type printed for one selection set is computed from another's"),
     "C02": (OTP, "the Result type printed for one selection set is computed from another's"),
-    "C03": (["nitrogql_checker", "nitrogql_semantics::direct_fields_of_output_type"], "a construct escapes validation because a different context was checked first"),
-    "C04": (["nitrogql_checker", "nitrogql_semantics::direct_fields_of_output_type"], "a valid construct is judged with facts remembered from another document or operation"),
+    # operations only: the schema-side checker (type_system_checker) is C05's subject
+    "C03": (["nitrogql_checker::operation_checker", "nitrogql_checker::common", "nitrogql_checker::types", "nitrogql_checker::error",
+             "nitrogql_semantics::direct_fields_of_output_type"], "a construct escapes validation because a different context was checked first"),
+    "C04": (["nitrogql_checker::operation_checker", "nitrogql_checker::common", "nitrogql_checker::types", "nitrogql_checker::error",
+             "nitrogql_semantics::direct_fields_of_output_type"], "a valid construct is judged with facts remembered from another document or operation"),
     "C05": (["nitrogql_checker::type_system_checker", "nitrogql_checker::common", "nitrogql_checker::types"], "a definition escapes a rule because an earlier definition consumed the memo"),
     "C06": (["sourcemap_writer"], "segments of one output are encoded relative to state left by another"),
     "C07": (["nitrogql_parser"], "the parsed document or its positions depend on what was parsed before"),
